@@ -44,6 +44,16 @@ def c13(work, tier, seed, replay):
                 rep.notes.append(o.strip() + " %s(%.0fs: the library backoff cannot be shortened, scenarios run in parallel)" % ("[reference witness] " if stub else "", dt))
                 out.write(open(part).read())
                 os.remove(part)
+    # (4) the long-running feeder (feeder.Run, as the omniwitness starts it): several cycles against an idle / growing log while a third party moves
+    # the witness between cycles; every cycle is judged like a single one (what is submitted is justified by what the witness said in that attempt)
+    for stub in ([], ["-stub"]):
+        part = work.path("feedrun.ndjson")
+        o, dt = run_driver(["feedrun", "-out", part, "-seed", str(seed), "-random", "20" if tier == "quick" else "300"] + stub, timeout=1800)
+        rep.notes.append(o.strip())
+        with open(tp, "a") as out:
+            out.write(open(part).read())
+        rep.cov["long_running_feeder_cycles"] = rep.cov.get("long_running_feeder_cycles", 0) + sum(1 for l in open(part) if '"e":"feed.start"' in l)
+        os.remove(part)
     events = read_ndjson(tp)
     jc = dict(F_BASE, TraceFile=tp)
     jr = tlc(work, "MC_Trace_Feeder", cfg_text(spec="Spec", constants=jc, action_constraints=["Monitor"], postcondition="Done"), name="judge-feeder", workers=1, timeout=3600, heap="12g")
